@@ -61,8 +61,15 @@ def present_lts(c, rng):
     rng.shuffle(edges)
     d["edges"] = edges
     d["k"] = rng.choice([c["n"], c["n"], c["n"], max(1, c["n"] - 1), 1])
-    if rng.random() < 0.15:
+    r = rng.random()
+    if r < 0.15:
         d["twice"] = True                               # the same question asked twice on the same object
+    elif r < 0.30 and len(edges) >= 2:
+        # the same object asked before and after the last edges are added (their labels already occur in the first part,
+        # and the highest label is there too: init() sizes its per-state label sets by the number of labels)
+        ok = [g for g in range(1, len(edges)) if set(e[1] for e in edges[g:]) <= set(e[1] for e in edges[:g])]
+        if ok:
+            d["grow"] = rng.choice(ok)
     if "part" in d and all(len(b) == c["n"] for b in d["part"]) and rng.random() < 0.5:
         # one block related to itself = "no partition given": use the overload without partition
         d.pop("part")
